@@ -1,5 +1,7 @@
 """C17 - specification helpers equal their documented closed forms."""
-CONTRACT_MODULES = ['piecewise', 'c17_builders']
+# round 3 (agent c17d): contracts/c17d_piecewise.py supersedes contracts/c17_builders.py (same clauses + values; a qualified name
+# can carry one contract only, and the verified node contracts of contracts/c05c_nodes.py replace its trivial assumed ones)
+CONTRACT_MODULES = ['piecewise', 'c17d_nodes', 'c17d_piecewise', 'c17d_builders']
 LEVEL = 'other'
 TRUSTED = ['pyvc (VC generator, Python semantics of the stated subset)', 'z3 5.1.0 / cvc5 1.0.3',
            'LEMMA sum-zero-tail (finite sums; induction)',
